@@ -961,6 +961,12 @@ Error query_rw_info(Arch arch, const BaseInst& inst, const Operand_* operands, s
     }
 
     rm_ops_mask &= uint32_t(inst_rm_info.rm_ops_mask);
+
+    // Zeroing {z} cannot be combined with a memory destination.
+    if (inst.has_option(InstOptions::kX86_ZMask)) {
+      rm_ops_mask &= ~uint32_t(0x1);
+    }
+
     if (rm_ops_mask && !inst.has_option(InstOptions::kX86_ER)) {
       Support::BitWordIterator<uint32_t> it(rm_ops_mask);
       do {
@@ -1400,7 +1406,8 @@ Error query_rw_info(Arch arch, const BaseInst& inst, const Operand_* operands, s
           out->_operands[0].reset(W, size0);
           out->_operands[1].reset(R, size1);
 
-          if (inst_rm_info.rm_ops_mask & 0x1) {
+          // Zeroing {z} cannot be combined with a memory destination.
+          if ((inst_rm_info.rm_ops_mask & 0x1) && !inst.has_option(InstOptions::kX86_ZMask)) {
             out->_operands[0].add_op_flags(RegM);
             out->_operands[0].set_rm_size(size0);
           }
